@@ -33,16 +33,9 @@ def rule_r1(ctx):
         f = prog.need(name, file)
         allocs = G.need_sites([s for s in f.calls("nni_msg_alloc")], "nni_msg_alloc", f)
         valid = G.cond_edges(f, c04.is_call("nni_msg_size_valid"), want_nonzero=True)
-        big = {}      # block testing len > rcvmax
-        lim = {}      # block testing rcvmax > 0
-        for b in f.blocks.values():
-            c = f.cond(b.id) if b.term and len(b.succs) == 2 else None
-            if c is None or c.get("k") != "bin":
-                continue
-            if c["op"] == ">" and c["lhs"].get("k") == "var" and is_rcvmax(c["rhs"]):
-                big[b.id] = 0
-            if c["op"] == ">" and is_rcvmax(c["lhs"]) and const_of(c["rhs"]) == 0:
-                lim[b.id] = 0
+        # len > rcvmax and rcvmax > 0 in any spelling (operands swapped, negated, limit held in a temporary)
+        big = G.rel_edges(f, lambda n: const_of(n) is None and not is_rcvmax(n), is_rcvmax, ">")
+        lim = G.nz_edges(f, is_rcvmax)
         for s in allocs:
             pos = (s.b, s.i)
             if valid and G.dominated(f, pos, valid):
@@ -54,27 +47,16 @@ def rule_r1(ctx):
             if not big or not lim:
                 ctx.fail(r, f, "receive limit test missing", s.line, "%s no longer compares the announced length with rcvmax" % name)
                 continue
-            # every path to the allocation evaluates len > rcvmax ...
-            tests = {(b, max(len(f.blocks[b].elems) - 1, 0)) for b in big}
-            if G.reaches(f, (f.entry, 0), [pos], blocked=tests):
-                ctx.fail(r, f, "alloc bypasses the receive limit", s.line,
-                         "nni_msg_alloc is reachable without evaluating len > p->rcvmax")
-                continue
-            # ... and is not reachable when both len > rcvmax and rcvmax > 0 hold
-            both = False
-            for b, k in lim.items():
-                tgt = f.blocks[b].succs[k]
-                # the rcvmax > 0 test that belongs to the && chain of len > rcvmax
-                if any(b == f.blocks[bb].succs[kk] for bb, kk in big.items()) and tgt is not None and \
-                        G.reaches(f, (tgt, 0), [pos]):
-                    both = True
-            chained = any(b2 == f.blocks[bb].succs[kk] for bb, kk in big.items() for b2 in lim)
-            if both or not chained:
-                ctx.fail(r, f, "oversize message allocated", s.line,
-                         "nni_msg_alloc is reachable although len > rcvmax and rcvmax > 0 (or the two tests are no longer one "
-                         "condition): NNG_OPT_RECVMAXSZ can be exceeded")
-            else:
+            # every path to the allocation has refuted one of the two facts: it crossed the edge on which len <= rcvmax,
+            # or the edge on which rcvmax == 0
+            refuted = {bb: 1 - k for bb, k in big.items()}
+            refuted.update({bb: 1 - k for bb, k in lim.items()})
+            if G.dominated(f, pos, refuted):
                 r.ob(f, "alloc unreachable when len > rcvmax && rcvmax > 0")
+            else:
+                ctx.fail(r, f, "oversize message allocated", s.line,
+                         "nni_msg_alloc is reachable on a path that crossed neither the len <= rcvmax edge nor the rcvmax == 0 "
+                         "edge: NNG_OPT_RECVMAXSZ can be exceeded", G.path_lines(f, (f.entry, 0), pos, refuted))
 
 
 def rule_r2(ctx):
@@ -87,28 +69,32 @@ def rule_r2(ctx):
         f = prog.need(name, file)
         offers = [s for s in f.calls(match)] + [s for s in f.calls("nni_list_append") if "waitpipes" in show(f.expand(s.node["args"][0]))]
         G.need_sites(offers, "offer of the negotiated pipe", f)
-        seen = {}
-        for b in f.blocks.values():
-            c = f.cond(b.id) if b.term and len(b.succs) == 2 else None
-            if c is None or c.get("k") != "bin" or c["op"] not in ("!=", "=="):
+        # edges on which handshake octet k is known to equal v, whatever the spelling of the test (a chain of !=, one
+        # conjunction of ==, a boolean helper that was inlined)
+        eq = {}       # octet -> {value: {block: edge}}
+        for bid, k, atom, val in G.edge_facts(f):
+            if atom.get("k") != "bin" or atom["op"] not in ("==", "!="):
                 continue
-            l = c["lhs"]
-            if l.get("k") == "idx" and is_hs_buf(l["b"]):
-                k = const_of(l["i"])
-                v = const_of(c["rhs"])
-                if k is not None:
-                    seen[k] = (b.id, v, 1 if c["op"] == "!=" else 0)   # edge on which the octet is as expected
+            l, rr = atom["lhs"], atom["rhs"]
+            if const_of(l) is not None and const_of(rr) is None:
+                l, rr = rr, l
+            while l.get("k") == "cast":
+                l = l["e"]
+            if l.get("k") != "idx" or not is_hs_buf(f.expand(l["b"])) or const_of(l["i"]) is None or const_of(rr) is None:
+                continue
+            if (atom["op"] == "==") == val:
+                eq.setdefault(const_of(l["i"]), {}).setdefault(const_of(rr), {})[bid] = k
         for k, v in want.items():
-            if k not in seen:
+            if k not in eq:
                 ctx.fail(r, f, "handshake octet %d unchecked" % k, f.line, "%s no longer compares rxlen[%d]" % (name, k))
                 continue
-            b, got, ok_edge = seen[k]
-            if got != v:
-                ctx.fail(r, f, "handshake octet %d compared with %s" % (k, got), f.line_of(b, 0),
+            if v not in eq[k]:
+                got = sorted(eq[k])[0]
+                ctx.fail(r, f, "handshake octet %d compared with %s" % (k, got), f.line,
                          "rxlen[%d] is compared with %s, the SP handshake requires %s" % (k, got, v))
                 continue
             for s in offers:
-                if G.dominated(f, (s.b, s.i), {b: ok_edge}):
+                if G.dominated(f, (s.b, s.i), eq[k][v]):
                     r.ob(f, "offer line %s dominated by rxlen[%d] == %d" % (s.line, k, v))
                 else:
                     ctx.fail(r, f, "pipe offered without checking octet %d" % k, s.line,
@@ -199,39 +185,26 @@ def rule_r4(ctx):
             ctx.fail(r, f, "no re-arm", f.line, "%s never accepts again" % name)
             continue
         cut = {}
-        # terminal switch cases / comparisons and the closed flag
-        term_blocks = set()
+        # the endpoint's closed flag
         for b in f.blocks.values():
-            lb = b.label
-            if lb and lb.get("kind") == "case":
-                v = lb.get("v") or {}
-                if v.get("k") == "enum" and v.get("n") in terminal:
-                    term_blocks.add(b.id)
             c = f.cond(b.id) if b.term and len(b.succs) == 2 else None
             if c is not None:
                 t = truth_of(c, lambda n: n.get("k") == "mem" and n["f"] == "closed")
                 if t:
                     cut[b.id] = 0 if t > 0 else 1
-                cc, neg = c, 0
-                while cc.get("k") == "un" and cc.get("op") == "!":
-                    cc, neg = cc["e"], neg ^ 1
-                if cc.get("k") == "bin" and cc["op"] in ("==", "!=") and cc["rhs"].get("k") == "enum" and cc["rhs"]["n"] in terminal:
-                    cut[b.id] = (0 if cc["op"] == "==" else 1) ^ neg
-        seen = f.reach((f.entry, 0), blocked=lambda b, i, e: (b, i) in via or b in term_blocks,
-                       edge_ok=lambda b, k: not (b in cut and k == cut[b]))
-        # entering a terminal case block counts as a terminal exit: block at block start
-        reach_exit = False
-        for (b, i) in seen:
-            if (b, i) == (f.exit, 0):
-                reach_exit = True
-        # paths into terminal case labels are cut by blocking their first position
+        # edges on which the result is known to be a terminal code (switch cases and comparisons alike)
+        settled = set()
+        for v in f.locals():
+            settled |= G.value_known_edges(f, v, names=terminal)
+
         def blocked(b, i, e):
             return (b, i) in via
-        seen2 = f.reach((f.entry, 0), blocked=blocked,
-                        edge_ok=lambda b, k: not (b in cut and k == cut[b]) and f.blocks[b].succs[k] not in term_blocks)
+
+        def edge_ok(b, k):
+            return not (b in cut and k == cut[b]) and (b, k) not in settled
+        seen2 = G.reach_flags(f, (f.entry, 0), blocked=blocked, edge_ok=edge_ok)
         if (f.exit, 0) in seen2:
-            path = f.find_path((f.entry, 0), lambda bb, ii: (bb, ii) == (f.exit, 0), blocked=blocked,
-                               edge_ok=lambda b, k: not (b in cut and k == cut[b]) and f.blocks[b].succs[k] not in term_blocks)
+            path = f.find_path((f.entry, 0), lambda bb, ii: (bb, ii) == (f.exit, 0), blocked=blocked, edge_ok=edge_ok)
             ctx.fail(r, f, "path without re-arm", f.line,
                      "%s can return without accepting again or arming its cool-down timer on a path that is not a terminal "
                      "result (%s) or endpoint-closed: one bad connection stops the listener" % (name, "/".join(sorted(terminal))),
